@@ -812,7 +812,7 @@ def sl_target(parts, f, owner):
             if i != 0:
                 f.add('rr-sl', '%s: ROOT component in the middle of a target' % owner)
             absolute = True
-            comps.append(None)
+            comps = [None]          # a ROOT component starts the path over at '/'
         elif cf & 2:
             comps.append(b'.')
         elif cf & 4:
